@@ -140,6 +140,9 @@ type Fault struct {
 	Name    string  `json:"name"`
 	Kinds   uint32  `json:"kinds"`   // bit mask over OpKind
 	Classes uint32  `json:"classes"` // bit mask over Class; 0 = any
+	// PathPrefix, if set, restricts the rule to paths with this prefix (one
+	// "device" of several directories on the simulated disk).
+	PathPrefix string `json:"path_prefix,omitempty"`
 	Skip    int     `json:"skip"`
 	Count   int     `json:"count"`
 	From    int64   `json:"from_ns,omitempty"`
@@ -363,6 +366,9 @@ func (d *Disk) pre(kind OpKind, p string) (bool, error) {
 			continue
 		}
 		if f.Classes != 0 && f.Classes&(1<<cls) == 0 {
+			continue
+		}
+		if f.PathPrefix != "" && !strings.HasPrefix(path.Clean("/"+p), f.PathPrefix) {
 			continue
 		}
 		if now < f.From || (f.Until > 0 && now >= f.Until) {
@@ -788,6 +794,25 @@ func (d *Disk) SyncedLen(p string) int {
 		return -1
 	}
 	return len(n.syncedData)
+}
+
+// Durable reports whether the directory entry of p would survive a crash that
+// keeps only durable state (the entry is in its directory's synced listing and
+// names the same file) and whether the file's data is completely durable.
+func (d *Disk) Durable(p string) (entry, data bool) {
+	d.mu.Lock()
+	defer d.mu.Unlock()
+	dir, name, err := d.lookupDir("stat", p)
+	if err != nil {
+		return false, false
+	}
+	n := dir.children[name]
+	if n == nil {
+		return false, false
+	}
+	entry = dir.syncedChildren[name] == n
+	data = len(n.syncedData) == len(n.data) && string(n.syncedData) == string(n.data)
+	return
 }
 
 // SyncedPrefixLen returns the length of the longest prefix of the file's live
